@@ -21,6 +21,28 @@ NOCODE = -1000000
 TOOLS_SRC = os.path.join(core.VERIF, "tools")
 ARGS = ["a1", "a2"]
 ENVS = ["e1=x", "e2=y"]
+# what Command::env is given (one raw "KEY=value" string per call, passed on as it is): ordinary entries,
+# a repeated key, an empty value / a value containing '=', an empty key / an entry without '='
+ENV_VARIANTS = {1: [["e1=x"], ["e3="], ["e4=a=b"], ["novalue"]],
+                2: [["e1=x", "e2=y"], ["e1=x", "e1=z"], ["e3=", "e4=a=b"], ["=v", "novalue"]]}
+
+
+def env_entries(n, idx):
+    return list(ENV_VARIANTS[n][(idx // 2) % 4]) if n else []
+
+
+def env_alternatives(entries):
+    """readings the API text leaves open for a repeated key: both passed on (the entries themselves),
+    last wins, first wins"""
+    keys = [e.split("=", 1)[0] for e in entries]
+    if len(set(keys)) == len(keys):
+        return []
+    last, first = {}, {}
+    for e in entries:
+        k = e.split("=", 1)[0]
+        last[k] = e
+        first.setdefault(k, e)
+    return [list(last.values()), list(first.values())]
 PENV = {"pe": "1"}
 RAWFD = [40, 41, 42]
 
@@ -196,7 +218,8 @@ def concretise(plan, rundir, variant, idx, helper=None):
     cwd = {"none": None, "ok": os.path.join(rundir, "dirA"), "missing": os.path.join(rundir, "dirX")}[cfg["cwd"]]
     io = list(cfg["io"])
     names = ["stdin", "stdout", "stderr"]
-    dplan = {"bin": binp, "args": ARGS[:cfg["nargs"]], "env": ENVS[:cfg["nenv"]] if cfg["nenv"] else None,
+    envs = env_entries(cfg["nenv"], idx)
+    dplan = {"bin": binp, "args": ARGS[:cfg["nargs"]], "env": envs if cfg["nenv"] else None,
              "cwd": cwd, "uid": idval(cfg["uid"], os.getuid()), "gid": idval(cfg["gid"], os.getgid()),
              "pgroup": 0 if cfg["pg"] == "own" else None,
              "pre_exec": list(cfg["pre"]), "open": [], "wait": wseq,
@@ -211,7 +234,8 @@ def concretise(plan, rundir, variant, idx, helper=None):
         else:
             dplan[names[s]] = m
     c = {"bin": binp, "args": dplan["args"], "envmode": "provided" if cfg["nenv"] else "default",
-         "envs": ENVS[:cfg["nenv"]], "start": start, "penv": ["%s=%s" % kv for kv in PENV.items()], "envAlt": env_alt,
+         "envs": envs, "start": start, "penv": ["%s=%s" % kv for kv in PENV.items()],
+         "envAlt": env_alternatives(envs) if cfg["nenv"] else env_alt,
          "cwd": cwd if cwd else "unset", "pcwd": os.path.realpath(rundir),
          "uid": -1 if dplan["uid"] is None else dplan["uid"], "puid": os.getuid(),
          "gid": -1 if dplan["gid"] is None else dplan["gid"], "pgid": os.getgid(),
@@ -299,10 +323,12 @@ def execute(job):
         raise core.ToolError("spawntrace failed rc=%d in %s: %s" % (p.returncode, rundir, open(os.path.join(rundir, "drv_err")).read()[-500:]))
     tr = [json.loads(l) for l in open(log)]
     dv = [json.loads(l) for l in open(evf)] if os.path.exists(evf) else []
-    dump = None
-    dpath = helper + ".dump"
-    if os.path.exists(dpath):
-        dump = json.loads(open(dpath).read())
+    dumps = {}
+    import glob as _glob
+    for dpath in _glob.glob(helper + ".*.dump"):
+        d = json.loads(open(dpath).read())
+        dumps[d["pid"]] = d
+    dump = next(iter(dumps.values())) if len(dumps) == 1 else None
     info = info_from_tracer(job["idx"], c, tr) if probe else info_from_driver(job["idx"], c, dv)
     events = assemble(job["idx"], c, tr, info, dump)
     if any(e["ev"] == "anomaly" and e["what"] == "TimedOut" for e in events):
